@@ -33,6 +33,7 @@ type Engine struct {
 	contracts map[string]*Contract
 	preds     map[string]*Pred
 	lemmas    []*Lemma
+	bindings  []*Binding
 	axioms    []*Lemma
 	structs   map[string]*StructInfo
 	syms      *SymTab
@@ -324,6 +325,7 @@ func (e *Engine) addContractFile(cf *ContractFile) error {
 		e.preds[p.Name] = p
 	}
 	e.lemmas = append(e.lemmas, cf.Lemmas...)
+	e.bindings = append(e.bindings, cf.Bindings...)
 	e.axioms = append(e.axioms, cf.Axioms...)
 	e.globalInvs = append(e.globalInvs, cf.GlobalInvs...)
 	return nil
